@@ -252,7 +252,9 @@ class UniformMeshGenerator:
             preference="top",
         )
 
-        self._commonMesh = np.array(combinedMesh)
+        # the common mesh holds the top of each mesh cell, so a material boundary at the
+        # bottom of the core (fuel or control material in the lowest block) is not part of it
+        self._commonMesh = np.array([z for z in combinedMesh if z > 0.0])
 
     def _filterMesh(
         self, meshList, minimumMeshSize, anchorPoints, preference="bottom", warn=False
